@@ -22,22 +22,22 @@ open PikaVerif
 /-- rank of the lock loop of `k` *after* the lock was taken, minus nothing: what is still to do
     while holding the lock and afterwards -/
 def lockedK (W L : Nat) : Kind → Nat
-  | .rs => W + 2
-  | .relock => W + 2
-  | .reg _ => L + W + 2
-  | .unreg _ => W + 4
+  | .rs => W + 3
+  | .relock => W + 3
+  | .reg _ => L + W + 3
+  | .unreg _ => W + 5
 
 /-- rank of a program counter, given the lock bit and the stop-requested bit of the word -/
 def rk (W L : Nat) (held req : Bool) : Pc → Nat
-  | .idle => 0
   | .fin => 0
-  | .retn _ _ => 1
-  | .wait _ => 2
-  | .chk _ => 3
-  | .post _ _ => 2 * W + 7
-  | .body _ _ => 2 * W + 8
-  | .exec _ _ => 2 * W + 9
-  | .pre _ => 2 * W + 10
+  | .idle => 1
+  | .retn _ _ => 2
+  | .wait _ => 3
+  | .chk _ => 4
+  | .post _ _ => 2 * W + 8
+  | .body _ _ => 2 * W + 9
+  | .exec _ _ => 2 * W + 10
+  | .pre _ => 2 * W + 11
   | .locked k => lockedK W L k
   | .cas k b => lockedK W L k + W + (if held then 2 else 1) + (if b = req then 0 else 1)
   | .spin k => lockedK W L k + W + (if held then 1 else 2)
@@ -327,15 +327,14 @@ theorem mu_inv (s s' : St) (a : Nat) (k : Kind) (h : step s (.inv a k) = some s'
        · exact (by assumption : _ ∧ _).1
        · simp [rk, lockedK, *] <;> omega)
 
-theorem mu_done (s s' : St) (a : Nat) (h : step s (.done a) = some s') : mu s' ≤ mu s := by
+theorem mu_done (s s' : St) (a : Nat) (h : step s (.done a) = some s') : mu s' < mu s := by
   simp only [step] at h
   split at h
   · next hc =>
     simp only [Option.some.injEq] at h; subst h
     simp only [mu, muW, muL]
-    have := mu_le_env s.n (2 * s.n + 1) (3 * (2 * s.n + 1) + 10) s.pc s.lock.isSome s.req s.list.length a 0 .fin hc.1
-      (by simp [rk, hc.2.2])
-    simpa using this
+    apply mu_lt_same _ _ _ _ _ _ _ _ _ _ hc.1
+    simp [rk, hc.2.2]
   · simp at h
 
 theorem mu_srcInc (s s' : St) (a : Nat) (h : step s (.srcInc a) = some s') : mu s' = mu s := by
@@ -361,5 +360,15 @@ theorem step_n (s s' : St) (e : Ev) (h : step s e = some s') : s'.n = s.n := by
     first
       | (exfalso; simp at h; done)
       | (simp only [Option.some.injEq] at h; subst h; rfl)
+
+theorem sumTo_const_one (n : Nat) : sumTo n (fun _ => 1) = n := by
+  induction n with
+  | zero => rfl
+  | succ k ih => simp only [sumTo_succ, ih]
+
+theorem mu_init (n K : Nat) (ident : Nat → Nat) (f1 f2 : Bool) (srcs : Nat) :
+    mu (init n K ident f1 f2 srcs) = n := by
+  simp only [mu, init, List.length_nil, Nat.mul_zero, Nat.zero_add, rk]
+  exact sumTo_const_one n
 
 end PikaVerif.Stop
